@@ -36,7 +36,8 @@ class Unsupported(PathAbort):
 
 class Explorer:
     def __init__(self, max_paths=20000, query_timeout_ms=20000, max_depth=400):
-        self.solver = z3.Solver()
+        _lg = __import__("os").environ.get("VERIF_Z3_LOGIC")
+        self.solver = z3.SolverFor(_lg) if _lg else z3.Solver()
         self.solver.set("timeout", query_timeout_ms)
         self.query_timeout_ms = query_timeout_ms
         self.prefix = []
@@ -49,12 +50,36 @@ class Explorer:
         self.n_unknown_branch = 0
         self.n_fresh = 0
         self.path_uncertain = False
+        self.deadline = None
+        self.budget_hit = False
+        self.n_fallback = 0
+        self.round_memo = {}
+        self._last = self.solver
 
     # -- solver access
     def check(self, *extra):
         t = time.time()
         self.n_queries += 1
-        r = self.solver.check(*extra)
+        r = None
+        if NLSAT != "0":
+            # non-incremental nlsat first (an order of magnitude faster on these polynomial queries);
+            # anything but sat/unsat falls back to the incremental SMT core, which also handles UF / ToInt.
+            try:
+                s2 = z3.Then("simplify", "purify-arith", "qfnra-nlsat").solver()
+                s2.set("timeout", min(self.query_timeout_ms, 5000))
+                s2.add(self.solver.assertions())
+                s2.add(*extra)
+                r = s2.check()
+                self._last = s2
+                if str(r) == "unknown":
+                    r = None
+                    self.n_fallback += 1
+            except z3.Z3Exception:
+                r = None
+                self.n_fallback += 1
+        if r is None:
+            r = self.solver.check(*extra)
+            self._last = self.solver
         dt = time.time() - t
         self.solver_s += dt
         if dt > 2.0 and SLOW_LOG is not None:
@@ -120,12 +145,14 @@ class Explorer:
         results = []
         complete = True
         while self.todo:
-            if len(results) >= self.max_paths:
+            if len(results) >= self.max_paths or (self.deadline and time.time() > self.deadline):
                 complete = False
+                self.budget_hit = True
                 break
             self.prefix = self.todo.pop()
             self.trace = []
             self.path_uncertain = False
+            self.round_memo = {}
             self.solver.push()
             try:
                 r = fn()
@@ -146,7 +173,7 @@ class Explorer:
             if prop:
                 return "valid", None
             r = self.check()
-            return ("refuted", self.solver.model()) if r == "sat" else ("unknown", None)
+            return ("refuted", self._last.model()) if r == "sat" else ("unknown", None)
         prop = z3.simplify(prop)
         if z3.is_true(prop):
             return "valid", None
@@ -154,13 +181,13 @@ class Explorer:
         if r == "unsat":
             return "valid", None
         if r == "sat":
-            return "refuted", self.solver.model()
+            return "refuted", self._last.model()
         return "unknown", None
 
     def model(self):
         r = self.check()
         if r == "sat":
-            return self.solver.model()
+            return self._last.model()
         return None
 
     def nice_model(self, variables, extra=None, model=None):
@@ -172,7 +199,7 @@ class Explorer:
         if model is None:
             if self.check(*ext) != "sat":
                 return None
-            model = self.solver.model()
+            model = self._last.model()
         base = {}
         for v in variables:
             val = model.eval(v, model_completion=True)
@@ -199,7 +226,7 @@ class Explorer:
                         else:
                             eqs.append(v == _frac_to_z3(_round_sig(f, digits, mode)))
                     if self.check(*(eqs + ext)) == "sat":
-                        return self.solver.model()
+                        return self._last.model()
         finally:
             self.solver.set("timeout", self.query_timeout_ms)
         return model
@@ -234,6 +261,8 @@ def _round_sig(f: fractions.Fraction, digits: _builtin_int, mode: _builtin_str) 
 
 
 CUR: Explorer | None = None
+NLSAT = __import__('os').environ.get('VERIF_NLSAT', '1')
+ROUND_MODE = "exact"  # or "uf": quantize/round as uninterpreted function + bracketing axiom
 SLOW_LOG = [] if __import__('os').environ.get('VERIF_SLOWLOG') else None
 
 
@@ -685,6 +714,31 @@ class Sym:
     def _quant(self, q_frac: fractions.Fraction, rounding):
         q = _frac_to_z3(q_frac)
         x = _real(self.e) / q
+        if ROUND_MODE == "uf":
+            # over-approximation: an uninterpreted function with the bracketing axiom (no integrality).
+            # Sound for proving obligations; a refutation is only a candidate and must replay.
+            ex = cur()
+            xs = z3.simplify(x)
+            key = (str(rounding), xs.get_id())
+            r = ex.round_memo.get(key)
+            if r is not None:
+                return r[0], q
+            r = ex.fresh("rnd")
+            ex.round_memo[key] = (r, xs)  # keep xs alive so that its id is not reused
+            if rounding in (None, decimal.ROUND_HALF_EVEN, decimal.ROUND_HALF_UP, decimal.ROUND_HALF_DOWN):
+                ax = z3.And(r - x <= z3.RealVal("1/2"), x - r <= z3.RealVal("1/2"))
+            elif rounding == decimal.ROUND_FLOOR:
+                ax = z3.And(r <= x, x - r < 1)
+            elif rounding == decimal.ROUND_CEILING:
+                ax = z3.And(r >= x, r - x < 1)
+            elif rounding == decimal.ROUND_DOWN:
+                ax = z3.And(z3.If(x >= 0, z3.And(r <= x, x - r < 1, r >= 0), z3.And(r >= x, r - x < 1, r <= 0)))
+            elif rounding == decimal.ROUND_UP:
+                ax = z3.And(z3.If(x >= 0, z3.And(r >= x, r - x < 1), z3.And(r <= x, x - r < 1)))
+            else:
+                raise Unsupported(f"rounding {rounding}")
+            cur().add(ax)
+            return r, q
         fl_i = z3.ToInt(x)
         fl = z3.ToReal(fl_i)
         fr = x - fl
